@@ -53,6 +53,12 @@ Theorem C02_table_valid : forall n Sc st adds t flds fs ref es st',
 Proof. exact build_table_valid. Qed.
 Print Assumptions C02_table_valid.
 
+(* A table whose inline data does not fit the 16-bit table size of its vtable (4 + data <= 65535) is refused by
+   start_table .. end_table; it is never finished with truncated vtable entries. *)
+Theorem C02_table_too_large_refused : forall st adds r, build_table st adds = Some r -> table_fits adds.
+Proof. exact build_table_fits. Qed.
+Print Assumptions C02_table_too_large_refused.
+
 (* create_buffer (the header: size prefix, root offset, identifier, padding that aligns the start; end padding) *)
 Theorem C02_create_buffer : forall n Sc st id b_align root align flags R v ref es st',
   st_ok st -> ma_ok st -> cache_ok st -> pow2 align -> min_align st <= align ->
